@@ -116,6 +116,14 @@ where
 {
     let (ret, switch) = execution(|execution| {
         let ret = f(execution);
+
+        // A branch point reached from a destructor while the thread is
+        // unwinding (e.g. dropping an `Arc`) must not schedule: the failure
+        // is already being reported, and scheduling could panic again.
+        if std::thread::panicking() {
+            return (ret, false);
+        }
+
         let switch = execution.schedule();
 
         trace!(?switch, "branch");
